@@ -937,7 +937,12 @@ class MatrixMethods(object):
         if type(p) is not int:
             p = ctx.convert(p)
         if p == ctx.inf:
-            return max(ctx.absmax(i) for i in x)
+            v = [ctx.absmax(i) for i in x]
+            # (max() drops a nan unless it comes first)
+            for t in v:
+                if t != t:
+                    return t
+            return max(v)
         elif p == 1:
             return ctx.fsum(x, absolute=1)
         elif p == 2:
